@@ -64,8 +64,9 @@ class InMemoryFederatedData(federated_data.FederatedData):
     self._preprocess_batch = preprocess_batch
     self._client_to_data_mapping = client_to_data_mapping
     self._client_ids = sorted(self._client_to_data_mapping.keys())
-    self._features = list(
-        self._client_to_data_mapping[self._client_ids[0]].keys())
+    # An empty mapping (e.g. an empty slice) is a valid dataset without clients.
+    self._features = list(self._client_to_data_mapping[
+        self._client_ids[0]].keys()) if self._client_ids else []
     for client_id in self._client_ids:
       dataset = self._client_to_data_mapping[client_id]
       if list(dataset.keys()) != self._features:
